@@ -115,9 +115,9 @@ theorem lmdsMu_euclid (δ : Mat N N K) (X : Mat N m K) (lm : Fin nl → Fin N) (
 
 /-! ### triangulation as a linear map of `x − centroid` -/
 
-/-- the `d × m` matrix `diag(s/lam) Vᵀ Z` -/
-def Mmap (V : Mat nl d K) (lam s : Vec d K) (X : Mat N m K) (lm : Fin nl → Fin N) : Mat d m K :=
-  fun i k => ∑ a, (V a i * (s i / lam i)) * Zc X lm a k
+/-- the `d × m` matrix `diag(c) Vᵀ Z` (`c` = the column factors of the pseudo-inverse) -/
+def Mmap (V : Mat nl d K) (c : Vec d K) (X : Mat N m K) (lm : Fin nl → Fin N) : Mat d m K :=
+  fun i k => ∑ a, (V a i * c i) * Zc X lm a k
 
 theorem dist_to_landmark (δ : Mat N N K) (X : Mat N m K) (lm : Fin nl → Fin N) (hE : IsEuclidean δ X)
     (x : Fin N) (a : Fin nl) :
@@ -131,28 +131,28 @@ theorem dist_to_landmark (δ : Mat N N K) (X : Mat N m K) (lm : Fin nl → Fin N
   unfold Zc; ring
 
 theorem triangulateRow_eq [CharZero K] (δ : Mat N N K) (X : Mat N m K) (lm : Fin nl → Fin N) (hn : (nl : K) ≠ 0)
-    (hE : IsEuclidean δ X) (V : Mat nl d K) (lam s : Vec d K) (heig : IsEig (lmdsB δ lm) V lam)
-    (hl : ∀ i, lam i ≠ 0) (x : Fin N) (i : Fin d) :
-    triangulateRow δ lm (lmdsMu δ lm) (divCols (post V s) lam) x i =
-      ∑ k, Mmap V lam s X lm i k * (X x k - centroid X lm k) := by
-  have hsum : ∑ a, V a i = 0 := eig_sum_zero heig (lmdsB_col_sum δ lm hn) i (hl i)
-  have hW : ∀ a, divCols (post V s) lam a i = V a i * (s i / lam i) := by
-    intro a; simp [divCols, post]; ring
-  have hWsum : ∑ a, V a i * (s i / lam i) = 0 := by rw [← Finset.sum_mul, hsum, zero_mul]
+    (hE : IsEuclidean δ X) (V : Mat nl d K) (lam c : Vec d K) (heig : IsEig (lmdsB δ lm) V lam)
+    (hc : ∀ i, c i = 0 ∨ lam i ≠ 0) (W : Mat nl d K) (hW : ∀ a i, W a i = V a i * c i) (x : Fin N) (i : Fin d) :
+    triangulateRow δ lm (lmdsMu δ lm) W x i = ∑ k, Mmap V c X lm i k * (X x k - centroid X lm k) := by
+  have hWsum : ∑ a, V a i * c i = 0 := by
+    rw [← Finset.sum_mul]
+    rcases hc i with h0 | hl
+    · rw [h0, mul_zero]
+    · rw [eig_sum_zero heig (lmdsB_col_sum δ lm hn) i hl, zero_mul]
   unfold triangulateRow
   rw [sumFin_eq_sum]
   set U := ∑ k, (X x k - centroid X lm k) * (X x k - centroid X lm k) with hU
   set T := (∑ b, nrm X lm b) / (nl : K) with hT
-  have hterm : ∀ a, divCols (post V s) lam a i * (δ x (lm a) * δ x (lm a) - lmdsMu δ lm a) =
-      (U - T) * (V a i * (s i / lam i))
-        - 2 * ((V a i * (s i / lam i)) * ∑ k, (X x k - centroid X lm k) * Zc X lm a k) := by
+  have hterm : ∀ a, W a i * (δ x (lm a) * δ x (lm a) - lmdsMu δ lm a) =
+      (U - T) * (V a i * c i)
+        - 2 * ((V a i * c i) * ∑ k, (X x k - centroid X lm k) * Zc X lm a k) := by
     intro a
     rw [hW, dist_to_landmark δ X lm hE, lmdsMu_euclid δ X lm hn hE]
     ring
   simp only [hterm]
   rw [Finset.sum_sub_distrib, ← Finset.mul_sum, hWsum, mul_zero, zero_sub, ← Finset.mul_sum, negHalf_eq]
-  have : -(1 / 2 : K) * -(2 * ∑ a, (V a i * (s i / lam i)) * ∑ k, (X x k - centroid X lm k) * Zc X lm a k)
-      = ∑ a, (V a i * (s i / lam i)) * ∑ k, (X x k - centroid X lm k) * Zc X lm a k := by ring
+  have : -(1 / 2 : K) * -(2 * ∑ a, (V a i * c i) * ∑ k, (X x k - centroid X lm k) * Zc X lm a k)
+      = ∑ a, (V a i * c i) * ∑ k, (X x k - centroid X lm k) * Zc X lm a k := by ring
   rw [this]
   unfold Mmap
   simp only [Finset.mul_sum, Finset.sum_mul]
@@ -163,14 +163,13 @@ theorem triangulateRow_eq [CharZero K] (δ : Mat N N K) (X : Mat N m K) (lm : Fi
 
 /-- the landmark rows are the same linear map applied to the centred landmarks -/
 theorem landmark_row_eq [CharZero K] (δ : Mat N N K) (X : Mat N m K) (lm : Fin nl → Fin N) (hn : (nl : K) ≠ 0)
-    (hE : IsEuclidean δ X) (V : Mat nl d K) (lam s : Vec d K) (heig : IsEig (lmdsB δ lm) V lam)
-    (hl : ∀ i, lam i ≠ 0) (a : Fin nl) (i : Fin d) :
-    ∑ k, Mmap V lam s X lm i k * Zc X lm a k = V a i * s i := by
+    (hE : IsEuclidean δ X) (V : Mat nl d K) (lam c : Vec d K) (heig : IsEig (lmdsB δ lm) V lam)
+    (a : Fin nl) (i : Fin d) :
+    ∑ k, Mmap V c X lm i k * Zc X lm a k = c i * (lam i * V a i) := by
   unfold Mmap
   simp only [Finset.sum_mul]
   rw [Finset.sum_comm]
-  have : ∀ b, ∑ k, V b i * (s i / lam i) * Zc X lm b k * Zc X lm a k
-      = (s i / lam i) * (lmdsB δ lm a b * V b i) := by
+  have : ∀ b, ∑ k, V b i * c i * Zc X lm b k * Zc X lm a k = c i * (lmdsB δ lm a b * V b i) := by
     intro b
     rw [lmdsB_eq_inner δ X lm hn hE, inner_symm]
     unfold inner
@@ -178,7 +177,6 @@ theorem landmark_row_eq [CharZero K] (δ : Mat N N K) (X : Mat N m K) (lm : Fin 
     apply Finset.sum_congr rfl; intro k _; ring
   simp only [this]
   rw [← Finset.mul_sum, isEig_apply heig]
-  field_simp [hl i]
 
 /-! ### the map is an isometry on the span of the centred landmarks -/
 
@@ -188,21 +186,21 @@ theorem isFactored_apply {n : Nat} {B : Mat n n K} {V : Mat n d K} {lam : Vec d 
   rwa [sumFin_eq_sum] at this
 
 theorem Mmap_isometry [CharZero K] (δ : Mat N N K) (X : Mat N m K) (lm : Fin nl → Fin N) (hn : (nl : K) ≠ 0)
-    (hE : IsEuclidean δ X) (V : Mat nl d K) (lam s : Vec d K) (heig : IsEig (lmdsB δ lm) V lam)
-    (hfac : IsFactored (lmdsB δ lm) V lam) (hs : IsSqrt s lam) (hl : ∀ i, lam i ≠ 0) (w : Fin nl → K) :
-    ∑ i, (∑ k, Mmap V lam s X lm i k * ∑ a, w a * Zc X lm a k) * (∑ k, Mmap V lam s X lm i k * ∑ a, w a * Zc X lm a k)
+    (hE : IsEuclidean δ X) (V : Mat nl d K) (lam s c : Vec d K) (heig : IsEig (lmdsB δ lm) V lam)
+    (hfac : IsFactored (lmdsB δ lm) V lam) (hs : IsSqrt s lam) (hcs : ∀ i, c i * lam i = s i) (w : Fin nl → K) :
+    ∑ i, (∑ k, Mmap V c X lm i k * ∑ a, w a * Zc X lm a k) * (∑ k, Mmap V c X lm i k * ∑ a, w a * Zc X lm a k)
       = ∑ k, (∑ a, w a * Zc X lm a k) * (∑ a, w a * Zc X lm a k) := by
   -- the image of a combination of centred landmarks
-  have himg : ∀ i, ∑ k, Mmap V lam s X lm i k * ∑ a, w a * Zc X lm a k = (∑ a, w a * V a i) * s i := by
+  have himg : ∀ i, ∑ k, Mmap V c X lm i k * ∑ a, w a * Zc X lm a k = (∑ a, w a * V a i) * s i := by
     intro i
     simp only [Finset.mul_sum]
     rw [Finset.sum_comm, Finset.sum_mul]
     apply Finset.sum_congr rfl; intro a _
-    have := landmark_row_eq δ X lm hn hE V lam s heig hl a i
-    calc ∑ k, Mmap V lam s X lm i k * (w a * Zc X lm a k)
-        = w a * ∑ k, Mmap V lam s X lm i k * Zc X lm a k := by
+    have := landmark_row_eq δ X lm hn hE V lam c heig a i
+    calc ∑ k, Mmap V c X lm i k * (w a * Zc X lm a k)
+        = w a * ∑ k, Mmap V c X lm i k * Zc X lm a k := by
           rw [Finset.mul_sum]; apply Finset.sum_congr rfl; intro k _; ring
-      _ = w a * V a i * s i := by rw [this]; ring
+      _ = w a * V a i * s i := by rw [this, ← hcs i]; ring
   simp only [himg]
   -- left side: Σ_i lam i (Σ_a w a V a i)²  =  Σ_a Σ_b w a w b B a b
   have hL : ∑ i, (∑ a, w a * V a i) * s i * ((∑ a, w a * V a i) * s i)
